@@ -22,34 +22,56 @@ def check(chk):
     chk.rule('C39.policy', 'AES256ColumnEncryptionPolicy: encrypt returns iv + ciphertext of the PKCS7-padded bytes; decrypt splits at the same block size and unpads')
     proto = chk.repo.mod(PROTO)
     rr = proto.func('ResultMessage.recv_results_rows')
+    # every decrypt() call of the decoder, wherever it sits (nested function, lambda, comprehension): the cell it receives is guarded
+    decs = [n for n in ast.walk(rr) if isinstance(n, ast.Call) and isinstance(n.func, ast.Attribute) and n.func.attr == 'decrypt'
+            and src(n.func.value).endswith('column_encryption_policy')]
+    if not decs:
+        raise AnalysisError('recv_results_rows: no decrypt call found')
+    from ..guards import normalise_atom
+
+    def nonnull_guards(call, arg):
+        """tests that hold when the call is evaluated: enclosing IfExp / If bodies, earlier operands of an enclosing `and`"""
+        out = []
+        node, p = call, parent(call)
+        while p is not None and p is not rr:
+            if isinstance(p, ast.IfExp) and node is p.body:
+                out.append((p.test, True))
+            elif isinstance(p, ast.IfExp) and node is p.orelse:
+                out.append((p.test, False))
+            elif isinstance(p, ast.If):
+                if any(node is x for x in p.body):
+                    out.append((p.test, True))
+                elif any(node is x for x in p.orelse):
+                    out.append((p.test, False))
+            elif isinstance(p, ast.BoolOp) and isinstance(p.op, ast.And):
+                i = [k for k, v in enumerate(p.values) if v is node]
+                for v in p.values[:i[0]] if i else ():
+                    out.append((v, True))
+            node, p = p, parent(p)
+        atoms = []
+        for t, pol in out:
+            parts = t.values if (isinstance(t, ast.BoolOp) and isinstance(t.op, ast.And) and pol) else [t]
+            for x in parts:
+                k, flip = normalise_atom(x)
+                atoms.append((k, pol != flip))
+        return atoms
+    for dc in decs:
+        arg = src(dc.args[1]) if len(dc.args) > 1 else '?'
+        atoms = nonnull_guards(dc, arg)
+        ok = ('%s is None' % arg, False) in atoms
+        # a local test variable (`uses_ce and val is not None` bound to a name) is looked through once
+        chk.judge(ok, 'C39.null', dc, 'pure decoder: decrypt(col_desc, %s) only when %s is not None (guards: %s)' % (arg, arg, ['%s%s' % ('' if v else 'not ', k) for k, v in atoms]),
+                  'read_value returns None for a null cell and decrypt() slices its argument: a null in an encrypted column fails the whole result with "NoneType is not subscriptable"')
     nested = dict((n.name, n) for n in body_walk(rr) if isinstance(n, ast.FunctionDef))
-    if 'decode_val' not in nested:
-        raise AnalysisError('recv_results_rows.decode_val not found')
-    dv = nested['decode_val']
-    decs = [n for n in body_walk(dv) if isinstance(n, ast.Call) and src(n.func) == 'column_encryption_policy.decrypt']
-    if len(decs) != 1:
-        raise AnalysisError('decode_val: decrypt call not found')
-    # guard of the decrypt call: enclosing IfExp / If tests
-    p = parent(decs[0])
-    guards = []
-    node = decs[0]
-    while p is not None and p is not dv:
-        if isinstance(p, ast.IfExp) and node is p.body:
-            guards.append(p.test)
-        if isinstance(p, ast.If) and any(node is x or node in list(ast.walk(x)) for x in p.body):
-            guards.append(p.test)
-        node, p = p, parent(p)
-    gtxt = ' and '.join(src(g) for g in guards)
-    arg = src(decs[0].args[1]) if len(decs[0].args) > 1 else '?'
-    ok = any(t in gtxt for t in ('%s is not None' % arg, 'not %s is None' % arg)) and 'uses_ce' in gtxt
-    chk.judge(ok, 'C39.null', decs[0], 'pure decoder: decrypt(col_desc, %s) only when encrypted column and %s is not None (guard: %s)' % (arg, arg, gtxt),
-              'read_value returns None for a null cell and decrypt() slices its argument: a null in an encrypted column fails the whole result with "NoneType is not subscriptable"')
+    dv = nested.get('decode_val')
     rv = proto.func('read_value')
     chk.judge('if size < 0' in src(rv) and 'return None' in src(rv), 'C39.null', rv, 'read_value maps negative length to None (the source of nullness)', 'read_value changed')
-    s = src(dv)
-    chk.judge('col_type = column_encryption_policy.column_type(col_desc) if uses_ce else col_md[3]' in s and 'return col_type.from_binary(raw_bytes, protocol_version)' in s, 'C39.sibling', dv,
+    s = src(dv) if dv is not None else src(rr)
+    if dv is None:
+        dv = rr
+    chk.judge(('col_type = column_encryption_policy.column_type(col_desc) if uses_ce else col_md[3]' in s or 'col_type = column_encryption_policy.column_type(col_desc)' in s) and 'col_type.from_binary(' in s, 'C39.sibling', dv,
               'pure decoder: codec from column_type(col_desc) for encrypted columns; decrypt before from_binary', 'pure decoder codec selection changed')
-    chk.judge('uses_ce = column_encryption_policy and column_encryption_policy.contains_column(col_desc)' in s, 'C39.sibling', dv, 'pure decoder consults contains_column', 'contains_column consultation changed')
+    chk.judge('column_encryption_policy and column_encryption_policy.contains_column(col_desc)' in s, 'C39.sibling', dv, 'pure decoder consults contains_column', 'contains_column consultation changed')
     chk.judge('col_descs = [ColDesc(md[0], md[1], md[2]) for md in column_metadata]' in src(rr), 'C39.sibling', rr, 'pure decoder: ColDesc(keyspace, table, column) from metadata positions 0,1,2', 'ColDesc construction changed')
     # bind
     q = chk.repo.mod(QUERY)
